@@ -144,6 +144,7 @@ func c08Oracle(c wireCase) ev.Verdict {
 	if err != nil {
 		return fail("encode-error:"+c.Msg, "PlainNasEncode: %v", err)
 	}
+	encSnap := append([]byte{}, enc...) // what the encoder returned, at the moment it returned
 	dec, err := b.decode(enc)
 	if err != nil {
 		return fail("decode-error:"+c.Msg, "PlainNasDecode of the library's own encoding (%s): %v", short(enc), err)
@@ -196,7 +197,37 @@ func c08Oracle(c wireCase) ev.Verdict {
 		}
 		vd.Classes = append(vd.Classes, "perm:non-identity")
 	}
+
+	// results stay what they were: the bytes and the message obtained in (i) are still held here while
+	// the codec has meanwhile been used for this message again (ii, iii) and is now used for other
+	// messages; a result that a LATER call of the library rewrites was never a function of its arguments
+	interfere()
+	if !bytes.Equal(enc, encSnap) {
+		return plain("retained:encoding-overwritten-by-a-later-call", "the bytes PlainNasEncode returned for this message (%s) read %s after later encode/decode calls for other messages", short(encSnap), short(enc))
+	}
+	if d := diffMsg(msg, dec); d != "" {
+		return plain("retained:decoded-message-changed-by-a-later-call", "the message PlainNasDecode returned differs from the original at %s after later encode/decode calls for other messages", d)
+	}
 	return vd
+}
+
+// interfere uses the codec for two unrelated messages (a REGISTRATION COMPLETE carrying a 40-octet SOR
+// transparent container and a 5GSM STATUS), the way any caller handling several UEs does.
+func interfere() {
+	for _, raw := range [][]byte{
+		append([]byte{0x7e, 0x00, 0x43, 0x73, 0x00, 0x28}, bytes.Repeat([]byte{0xa5}, 40)...),
+		{0x2e, 0x05, 0x00, 0xd6, 0x6f},
+	} {
+		_, _ = ev.Guard(func() error {
+			in := append([]byte{}, raw...)
+			m := nas.NewMessage()
+			if err := m.PlainNasDecode(&in); err != nil {
+				return err
+			}
+			_, err := m.PlainNasEncode()
+			return err
+		})
+	}
 }
 
 // attribute finds the root cause of a failure: the message is rebuilt IE by IE in table
